@@ -149,7 +149,14 @@ def oracle_c01(d):
             in_flight = [u for u in attempts if u["s1"] is None or u["s1"] > entry["s0"]]
             removed_again = [e for e in d.events if e["k"] == "store" and e["op"] == "remove" and (e["obj"], e["state"]) == key
                              and e["seq"] < entry["s0"] and any(u["s1"] is not None and u["s1"] < e["seq"] for u in attempts if u["status"] in OK)]
-            if removed_again and not holders:
+            # only removals of copies this test could have used say something about it (its own pool, or a listed source whose
+            # scope is enabled); another worker cleaning its own copy under per-worker reuse is that worker's business
+            usable = [e for e in removed_again if e["loc"].startswith(entry["w"] + ":") or (
+                e["loc"] in requirement["locs"] and location_scope_of(e["loc"], entry["w"], d) in requirement["pool_scope"])]
+            if usable or (removed_again and not holders):
+                # (a copy the test could have used was there and was cleaned away: that explains the miss, whatever other,
+                # unusable copies exist elsewhere)
+                removed_again = usable or removed_again
                 parsing = "up-front parsing" if d.eager else f"lazy parsing, {expansion_note(d, entry['cls'], min(e['seq'] for e in removed_again))}"
                 same = "the same worker's" if all(e["loc"].startswith(entry["w"] + ":") for e in removed_again) else "another worker's"
                 mechanism = f"state produced in this run was removed from {same} pool by a cleanup before a pending dependant started ({parsing})"
@@ -403,20 +410,29 @@ IDLE_BOUNCE_BOUND = 10
 
 
 def expansion_note(d, cls, seq):
-    """Under lazy parsing: had any worker expanded the selected test of this class before event number seq?"""
+    """Under lazy parsing: had any worker expanded the selected test this class comes from before event number seq?"""
     from vlib.travsim import class_key
     base, _, objects = cls.partition(".vms.")
+    refused = False
     for event in d.events:
         if event["seq"] >= seq:
             break
         if event["k"] != "expand":
             continue
+        if not event["children"]:
+            # a worker whose restrictions exclude the test tried to expand it and got nothing
+            flat_base = class_key(event["flat"], d.main_restrictions)
+            if base == flat_base or base.startswith(flat_base + "."):
+                refused = True
         for child in event["children"]:
             child_cls = class_key(child, d.main_restrictions)
             child_base, _, child_objects = child_cls.partition(".vms.")
             # clones carry the producing variant after the name of the test they were cloned from
-            if child_objects == objects and (base == child_base or base.startswith(child_base + ".")):
+            # (the code's rule is per selected test, whatever object variants the expanding worker supports)
+            if base == child_base or base.startswith(child_base + "."):
                 return "dependant already expanded by some worker"
+    if refused:
+        return "dependant expanded by nobody yet but found incompatible with some worker"
     return "dependant not yet expanded by any worker"
 
 
